@@ -68,7 +68,7 @@ theorem progress_any {s : St} (L : LockInv s) (O : NoOld s) {t : Nat} (hne : s.f
     Progress s := by
   cases hf : s.frame t with
   | idle => exact absurd hf hne
-  | addLoaded i v d =>
+  | addLoaded i v c d =>
     cases d
     · exact ⟨t, .addFwd, by simp [hf], by simp [step, hf]⟩
     · exact ⟨t, .addFwd, by simp [hf], by simp [step, hf]⟩
